@@ -321,10 +321,11 @@ func HandleSetFileInfo(cc *hotline.ClientConn, t *hotline.Transaction) (res []ho
 			if err != nil {
 				return nil
 			}
-			hlFile.Name, err = txtDecoder.String(string(fileNewName))
-			if err != nil {
-				return res
+			// Take the new name from the sanitised new path, so that it cannot carry path separators or "..".
+			if fullNewFilePath == fileDir {
+				return res // the new name is empty once sanitised
 			}
+			hlFile.Name = filepath.Base(fullNewFilePath)
 
 			err = hlFile.Move(fileDir)
 			if os.IsNotExist(err) {
